@@ -26,6 +26,7 @@ type NewRollingHistogramFn func() (*RollingHDRHistogram, error)
 type RTMetrics struct {
 	total           *RollingCounter
 	netErrors       *RollingCounter
+	countersLock    sync.Mutex
 	statusCodes     map[int]*RollingCounter
 	statusCodesLock sync.RWMutex
 	histogram       *RollingHDRHistogram
@@ -90,8 +91,10 @@ func (m *RTMetrics) Export() *RTMetrics {
 	export := &RTMetrics{}
 	export.statusCodesLock = sync.RWMutex{}
 	export.histogramLock = sync.RWMutex{}
+	m.countersLock.Lock()
 	export.total = m.total.Clone()
 	export.netErrors = m.netErrors.Clone()
+	m.countersLock.Unlock()
 	exportStatusCodes := map[int]*RollingCounter{}
 	for code, rollingCounter := range m.statusCodes {
 		exportStatusCodes[code] = rollingCounter.Clone()
@@ -114,6 +117,8 @@ func (m *RTMetrics) CounterWindowSize() time.Duration {
 // NetworkErrorRatio calculates the amont of network errors such as time outs and dropped connection
 // that occurred in the given time window compared to the total requests count.
 func (m *RTMetrics) NetworkErrorRatio() float64 {
+	m.countersLock.Lock()
+	defer m.countersLock.Unlock()
 	if m.total.Count() == 0 {
 		return 0
 	}
@@ -146,15 +151,19 @@ func (m *RTMetrics) Append(other *RTMetrics) error {
 		return errors.New("RTMetrics cannot append to self")
 	}
 
-	if err := m.total.Append(other.total); err != nil {
-		return err
-	}
-
-	if err := m.netErrors.Append(other.netErrors); err != nil {
-		return err
-	}
-
 	copied := other.Export()
+
+	m.countersLock.Lock()
+	if err := m.total.Append(copied.total); err != nil {
+		m.countersLock.Unlock()
+		return err
+	}
+
+	if err := m.netErrors.Append(copied.netErrors); err != nil {
+		m.countersLock.Unlock()
+		return err
+	}
+	m.countersLock.Unlock()
 
 	m.statusCodesLock.Lock()
 	defer m.statusCodesLock.Unlock()
@@ -176,21 +185,27 @@ func (m *RTMetrics) Append(other *RTMetrics) error {
 
 // Record records a metric.
 func (m *RTMetrics) Record(code int, duration time.Duration) {
+	m.countersLock.Lock()
 	m.total.Inc(1)
 	if code == http.StatusGatewayTimeout || code == http.StatusBadGateway {
 		m.netErrors.Inc(1)
 	}
+	m.countersLock.Unlock()
 	_ = m.recordStatusCode(code)
 	_ = m.recordLatency(duration)
 }
 
 // TotalCount returns total count of processed requests collected.
 func (m *RTMetrics) TotalCount() int64 {
+	m.countersLock.Lock()
+	defer m.countersLock.Unlock()
 	return m.total.Count()
 }
 
 // NetworkErrorCount returns total count of processed requests observed.
 func (m *RTMetrics) NetworkErrorCount() int64 {
+	m.countersLock.Lock()
+	defer m.countersLock.Unlock()
 	return m.netErrors.Count()
 }
 
@@ -221,8 +236,10 @@ func (m *RTMetrics) Reset() {
 	m.histogramLock.Lock()
 	defer m.histogramLock.Unlock()
 	m.histogram.Reset()
+	m.countersLock.Lock()
 	m.total.Reset()
 	m.netErrors.Reset()
+	m.countersLock.Unlock()
 	m.statusCodes = make(map[int]*RollingCounter)
 }
 
